@@ -540,6 +540,17 @@ public:
             o["capture_inits"] = std::move(inits);
             if (CO && CO->hasBody() && !CO->isDependentContext())
                 pendingLambdas.push_back(CO);
+            // generic lambda ([](const auto &x){...}): the bodies live in the call operator's specialisations
+            if (auto *FT = X->getLambdaClass() ? X->getLambdaClass()->getDependentLambdaCallOperator() : nullptr) {
+                json::Array insts;
+                for (auto *Spec : FT->specializations()) {
+                    if (Spec->hasBody() && !Spec->isDependentContext()) {
+                        pendingLambdas.push_back(Spec);
+                        insts.push_back(fnId(Spec));
+                    }
+                }
+                o["insts"] = std::move(insts);
+            }
         } else if (auto X = dyn_cast<CXXOperatorCallExpr>(S)) {
             // QStringLiteral folding
             const LambdaExpr *LE = nullptr;
